@@ -66,7 +66,14 @@ def val_of(key, ty):
     return h % 1000
 
 
-def generate(rng):
+HOSTILE_METHODS = ["destruct", "destruct1", "new1", "new2", "new3", "new_", "type", "match", "fn", "impl", "drop", "clone", "fmt", "eq", "hash", "Self", "self",
+                   "super", "crate", "mod", "move", "ref", "use", "where", "loop", "in", "let", "as", "dyn", "async", "await", "box", "yield",
+                   "final", "override", "abstract", "macro", "priv", "unsized", "become", "unsafe", "trait", "pub", "extern_", "m0", "get"]
+HOSTILE_FIELDS = ["_base", "_base_1", "vtable_", "_address", "_bitfield_1", "_bitfield_align_1", "__bindgen_padding_0", "_phantom_0", "type", "self", "Self",
+                  "fn", "match", "crate", "super", "box", "dyn", "async", "_", "__", "a$b"]
+
+
+def generate(rng, hostile_names=False):
     lib = Lib()
     ns = rng.choice([[], [], ["ns"], ["outer", "inner"]])
     for i in range(rng.randint(0, 2)):
@@ -86,6 +93,12 @@ def generate(rng):
                 k.base = rng.choice(cands)
         for j in range(rng.randint(1, 4)):
             k.fields.append(("f%d_%d" % (i, j), scalar(rng)))
+        if hostile_names and rng.random() < 0.5:
+            for fn_ in rng.sample(HOSTILE_FIELDS, rng.randint(1, 3)):
+                k.fields.append((fn_, scalar(rng)))
+        if k.base is not None:
+            # keep the first own member out of the base's tail padding (re-use of tail padding is a layout matter, C02's)
+            k.fields[0] = (k.fields[0][0], Ty(*rng.choice([s_ for s_ in SCALARS if s_[3] == 64])))
         virt = rng.random() < 0.3
         # constructors (at least one: the drivers need a way to make an object)
         seen = set()
@@ -100,6 +113,8 @@ def generate(rng):
             k.has_dtor = True
             k.methods.append(Method("~" + k.name, [], None, kind="dtor", virtual=virt and rng.random() < 0.5))
         names = ["m%d" % q for q in range(3)] + ["get", "set", "type", "match", "drop", "clone", "self_"]
+        if hostile_names:
+            names = rng.sample(HOSTILE_METHODS, 6) + ["m0"]
         sigs = set()
         for j in range(rng.randint(1, 7)):
             nm = rng.choice(names)
@@ -307,7 +322,8 @@ def driver_cpp(lib, hname="h.hpp"):
                 else:
                     al.append(_c_lit(p, v))
             # non-virtual, qualified call: the binding names exactly this function
-            call = ("%s::%s(%s)" % (k.qual, m.name, ", ".join(al))) if m.static else ("o->%s::%s(%s)" % (k.qual, m.name, ", ".join(al)))
+            recv = ("((const %s *)o)" % k.qual) if m.const else "o"
+            call = ("%s::%s(%s)" % (k.qual, m.name, ", ".join(al))) if m.static else ("%s->%s::%s(%s)" % (recv, k.qual, m.name, ", ".join(al)))
             out.append('    printf("STEP %d call %d\\n"); fflush(stdout);' % (si, mi))
             if m.ret is None:
                 out.append("    %s;" % call)
@@ -396,7 +412,8 @@ def driver_rs(lib, bindings_path, resolve, use_wrappers):
                 else:
                     al.append(_rs_lit(p, v))
             if rm["wrapper"] and use_wrappers and (mi + si) % 2 == 0:
-                call = ("%s::%s(%s)" % (rc["ty"], rm["wrapper"], ", ".join(al))) if m.static else ("(*o).%s(%s)" % (rm["wrapper"], ", ".join(al)))
+                # path form: method-call syntax would prefer a derived trait method (`Clone::clone`) over an inherent `&mut self` one
+                call = "%s::%s(%s)" % (rc["ty"], rm["wrapper"], ", ".join(([] if m.static else ["&*o" if m.const else "&mut *o"]) + al))
             else:
                 recv = [] if m.static else ["o as _"]
                 call = "%s(%s)" % (rm["ext"], ", ".join(recv + al))
@@ -417,7 +434,7 @@ def driver_rs(lib, bindings_path, resolve, use_wrappers):
                 skipped.append((k.qual, di))
                 out.append('    println!("UNBOUND");')
             elif rd["wrapper"] and use_wrappers:
-                out.append("    (*o).%s();" % rd["wrapper"])
+                out.append("    %s::%s(&mut *o);" % (rc["ty"], rd["wrapper"]))
             else:
                 out.append("    %s(o as _);" % rd["ext"])
         out.append("  }")
